@@ -9,6 +9,7 @@ pip install swcgeom[all]
 ```
 """
 
+import itertools
 import os
 import re
 import time
@@ -197,8 +198,13 @@ class ToImageStack(Transform[Tree, npt.NDArray[np.uint8]]):
         frames: Iterable[npt.NDArray[np.uint8]],
         resolution: tuple[float, float] = (1, 1),
     ) -> None:
+        frames = iter(frames)
+        heads = [f for f in (next(frames, None), next(frames, None)) if f is not None]
+        if len(heads) == 1:  # keep the z-axis of a single frame stack
+            heads = [heads[0][np.newaxis]]
+
         with tifffile.TiffWriter(fname) as tif:
-            for frame in frames:
+            for frame in itertools.chain(heads, frames):
                 tif.write(
                     frame,
                     contiguous=True,
